@@ -49,7 +49,8 @@ PROBES = ["image_size_changed_mid_iteration", "url_404", "url_garbage_body", "ur
           "fault_in_convert", "fault_in_resize", "fault_in_save", "fault_in_seek",
           "fault_in_open", "caller_pil_image_survives", "animated_draw_keeps_tell",
           "image_closed_under_live_iterator", "two_seeks_without_next",
-          "frame_equals_direct_format", "seek_then_next", "temp_write_failed"]
+          "frame_equals_direct_format", "seek_then_next", "temp_write_failed", "gif_frame_equals_fresh_direct_format", "direct_format_equals_twin",
+          "cached_resize_script", "resize_then_whole_pass"]
 COMPONENTS = {
     "real": ["BaseImage (from_file, from_url, close, _get_image, _close_image, _renderer, "
              "_get_render_data, draw, _display_animated)", "ImageIterator",
